@@ -149,6 +149,60 @@ fn structured<L: Tab>(run: &Run, st: bool, n: usize) {
     );
 }
 
+/// The `level >= 6` kernel treats 64-bit words as atoms (it only looks inside a word to
+/// normalise on bit 0): all tables whose words are drawn from {a, b, !a} with a even and b
+/// odd — every sequence — and lists of such tables are the exhaustive small scope there.
+fn word_sequences<L: Tab>(run: &Run, st: bool, n: usize) {
+    let nw = crate::model::tt::nwords(n);
+    let a = crate::engine::mix(run.seed ^ 0xC07A) & !1;
+    let b = crate::engine::mix(run.seed ^ 0xC07B) | 1;
+    let words = [a, b, !a];
+    let ntab = 3u64.pow(nw as u32);
+    let table = |mut k: u64| -> TT {
+        let mut w = Vec::with_capacity(nw);
+        for _ in 0..nw {
+            w.push(words[(k % 3) as usize]);
+            k /= 3;
+        }
+        TT { n, w }
+    };
+    let (total, what) = if n == 7 {
+        (ntab * ntab * ntab, "all ordered 3-lists of the 9 word-sequence tables, plus singles and pairs")
+    } else if n == 8 {
+        (ntab * ntab, "all ordered pairs of the 81 word-sequence tables, plus singles and (t,u,t) sandwiches")
+    } else {
+        (ntab, "all 6561 word-sequence tables as single functions, plus (t,u,t) sandwiches")
+    };
+    run.section(&format!("WORDSEQ n={} {}: tables over the word alphabet {{a, b, !a}}", n, L::tname(n)), false, what, total, 16, |r, l| {
+        for idx in r {
+            if n == 7 {
+                let (x, y, z) = (idx / (ntab * ntab), (idx / ntab) % ntab, idx % ntab);
+                step::<L>(l, st, n, &[table(x), table(y), table(z)], idx % 8 == 0);
+                if y == 0 && z == 0 {
+                    step::<L>(l, st, n, &[table(x)], true);
+                }
+                if z == 0 {
+                    step::<L>(l, st, n, &[table(x), table(y)], true);
+                }
+            } else if n == 8 {
+                let (x, y) = (idx / ntab, idx % ntab);
+                step::<L>(l, st, n, &[table(x), table(y)], idx % 8 == 0);
+                step::<L>(l, st, n, &[table(x), table(y), table(x)], false);
+                if y == 0 {
+                    step::<L>(l, st, n, &[table(x)], true);
+                }
+            } else {
+                step::<L>(l, st, n, &[table(idx)], idx % 8 == 0);
+                let u = table((idx * 7 + 1) % ntab);
+                step::<L>(l, st, n, &[table(idx), u, table(idx)], false);
+            }
+            if idx == total / 2 {
+                l.sample(J::s(case_str(st, n, &[table(idx % ntab)])));
+            }
+        }
+    });
+}
+
 pub fn run(run: &Run) {
     if let Err(e) = bdd::self_check() {
         run.machinery(format!("robdd model self-check: {}", e));
@@ -181,6 +235,14 @@ pub fn run(run: &Run) {
     for n in 4..=11usize {
         for st in [false, true] {
             for_type!(st, n, sx(run, st, n));
+        }
+    }
+    fn ws<L: Tab>(run: &Run, st: bool, n: usize) {
+        word_sequences::<L>(run, st, n)
+    }
+    for n in 7..=9usize {
+        for st in [false, true] {
+            for_type!(st, n, ws(run, st, n));
         }
     }
     let _ = for_static!(0, nop());
